@@ -307,6 +307,40 @@ class Tree:
 """
 
 
+TVBOUND_SRC = """
+import dataclasses, typing
+@dataclasses.dataclass
+class Leaf:
+    x: int
+@dataclasses.dataclass
+class Branch:
+    kids: typing.List[Leaf]
+ClassT = typing.TypeVar("ClassT", bound=Leaf)
+UnionT = typing.TypeVar("UnionT", bound=typing.Union[Leaf, Branch])
+OptionalT = typing.TypeVar("OptionalT", bound=typing.Optional[Branch])
+ListT = typing.TypeVar("ListT", bound=typing.List[Leaf])
+LeafId = typing.NewType("LeafId", Leaf)
+NewTypeT = typing.TypeVar("NewTypeT", bound=LeafId)
+CnT = typing.TypeVar("CnT", Leaf, str)
+@dataclasses.dataclass
+class UnionBox(typing.Generic[UnionT]):
+    item: UnionT
+    named: typing.Dict[str, UnionT]
+@dataclasses.dataclass
+class ClassBox(typing.Generic[ClassT]):
+    item: ClassT
+"""
+
+
+def tvbound_job():
+    """TypeVars stand for their bound (a class, a union, an Optional, a parametrised generic, a NewType) or the union of their
+    constraints: the type they stand for is a member like any other and has a node before the node that contains it."""
+    roots = ["list[ClassT]", "list[UnionT]", "dict[str, OptionalT]", "tuple[ListT, int]", "set[NewTypeT]", "typing.Optional[list[UnionT]]",
+             "list[CnT]", "tuple[UnionT, ListT]", "dict[str, list[NewTypeT]]"]
+    return {"prog": {"src": TVBOUND_SRC, "module": "vm_c09_tvbound"}, "roots": [{"ty": ["expr", e], "kind": "typevar-bound"} for e in roots],
+            "family": "tvbound", "meta": {}}
+
+
 def genalias_job():
     """PEP 695 generic aliases, subscripted: a node like any other, preceded by its arguments; two parametrisations of one alias
     are two types, and a deferred node for one denotes it parameters included."""
@@ -521,6 +555,7 @@ def build_jobs(ctx):
             jobs.append({"prog": inp["prog"], "roots": [inp["root"]], "family": "focus", "meta": {}})
     jobs.append(generic_job())
     jobs.append(genalias_job())
+    jobs.append(tvbound_job())
     jobs.append(formname_job())
     jobs.append(fwdarg_job())
     jobs.append(shadow_job())
@@ -689,6 +724,10 @@ def o_members(t):
                 ms += [(k, h) for k, h in typing.get_type_hints(u.__init__).items() if k != "return"]
             except Exception:  # noqa: BLE001
                 pass
+    # a TypeVar stands for its bound / the union of its constraints (a free one for Any: no member)
+    # (as a generic ARGUMENT; a field annotated with a TypeVar has a node of the TypeVar itself, which this oracle does not follow)
+    ms = [(v, (m.__bound__ if m.__bound__ is not None else typing.Union[m.__constraints__] if m.__constraints__ else typing.Any)
+           if isinstance(m, typing.TypeVar) and v is None else m) for v, m in ms]
     return [(v, o_deref(m)) for v, m in ms if m is not typing.Any and not isinstance(m, typing.TypeVar)]
 
 
